@@ -67,7 +67,7 @@ def blocks(tier, seed, prop='C01'):
         for r in ('R1', 'R3'):
             tx = MAIN_TX[r]
             wins = windows(r, tx)
-            for wi in vlib.seeded_windows(seed, len(wins), 3, always=(1,)):
+            for wi in range(len(wins)):       # thorough is seed-independent: every window
                 lo, hi = wins[wi]
                 out.append((f'D3/{r}/none/w{wi}', E.d3_cases(r, tx, CFG_NONE, lo, hi, 5), dict(deviations=3, window=[lo, hi])))
     return out
